@@ -184,6 +184,24 @@ example (f : Bytes) (h : encode false kvA1 [t4 1] = .ok f) : AlignedWritten 0 [(
     exact ⟨⟨by decide, by decide, by decide⟩, by unfold WfT; decide⟩, rfl, by decide, h⟩⟩
   exact ⟨hw, Nat.mod_one _, hw, Nat.mod_one _, trivial⟩
 
+/-- **The round trip for the tensor list the caller passed** (the writer sorts the list before writing; `written` is any
+    permutation of `ts`): every tensor of the caller's list is found with its name, kind, reversed shape and bytes at an
+    aligned location inside the file, and the decoded list has the same length (Proofs/GgufFull.lean). -/
+theorem write_decode_caller_list (kvs : List (Bytes × KVal)) (ts written : List TIn) (file : Bytes) (align : Nat)
+    (maxArraySize : Int) (hperm : written.Perm ts)
+    (hnodup : (kvs.map (·.1)).Nodup)
+    (hnoparam : ∀ kv ∈ kvs, kv.1 ≠ keyParamCount)
+    (htv : ∀ kv ∈ kvs, TypedVal kv.2) (htt : ∀ t ∈ ts, TypedTensor t ∧ WfT t)
+    (halign : alignmentIn kvs = .ok align) (hpos : 0 < align)
+    (henc : encode false kvs written = .ok file) (hlen : file.length < two63) :
+    ∃ d, decode file maxArraySize none = .ok d ∧ d.endOffset = file.length ∧ d.tensors.length = ts.length ∧
+      ∀ t ∈ ts, ∃ (i : Nat) (hi : i < d.tensors.length),
+        d.tensors[i].name = t.name ∧ d.tensors[i].kind = t.kind ∧ d.tensors[i].shape = t.shape.reverse ∧
+        d.tensors[i].offset % align = 0 ∧
+        d.tensorOffset + d.tensors[i].offset + t.data.length ≤ file.length ∧
+        slice file (d.tensorOffset + d.tensors[i].offset) t.data.length = t.data :=
+  OllamaVerif.Gguf.write_decode_caller_list kvs ts written file align maxArraySize hperm hnodup hnoparam htv htt halign hpos henc hlen
+
 /-! ### finding F1c: the writer accepts a `general.alignment` its own decoder rejects
 
   `WriteGGUF` reads the alignment with `kv.Uint("general.alignment", 32)`; `keyValue[uint32]` treats a key stored with
